@@ -380,3 +380,157 @@ def grid_blueprint_written_as_lattice_map_reloads_to_the_same_contents(ctx, kind
     ctx.check("the original blueprint is not altered by saving", dict(gb.gridContents) == contents)
     ctx.check("the saved grid loads to exactly the cells it had", sorted(got) == sorted(want))
     ctx.check("... with each specifier at its own index", all(got.get(ij) == v for ij, v in want.items()))
+
+
+# ---------------------------------------------------------------------------------------------------------
+# pin lattice of a block: "places, at every location named in the core and pin lattice maps (text maps and explicit
+# lists alike) ..." and "components have the specified ... multiplicity".  The blueprint is TEXT generated per path.
+
+from armi import settings as _settings  # noqa: E402
+from armi.reactor import blueprints as _blueprints  # noqa: E402
+
+PIN_TEMPLATE = r"""
+nuclide flags:
+    U235: {{burn: false, xs: true}}
+    U238: {{burn: false, xs: true}}
+    ZR: {{burn: false, xs: true}}
+blocks:
+    pins: &block_pins
+        grid name: pingrid
+        pinA:
+            shape: Circle
+            material: UZr
+            Tinput: 25.0
+            Thot: 25.0
+            id: 0.0
+            od: 0.4
+            latticeIDs: [{a}]
+        pinB:
+            shape: Circle
+            material: UZr
+            Tinput: 25.0
+            Thot: 25.0
+            id: 0.0
+            od: 0.3
+            latticeIDs: [{b}]
+        clad:
+            shape: Circle
+            material: Void
+            Tinput: 25.0
+            Thot: 25.0
+            id: 0.4
+            od: 0.45
+            latticeIDs: [{a}, {b}]
+        loose:
+            shape: Circle
+            material: UZr
+            Tinput: 25.0
+            Thot: 25.0
+            id: 0.0
+            od: 0.2
+            mult: 3
+        pitch:
+            shape: Square
+            material: Void
+            Tinput: 25.0
+            Thot: 25.0
+            widthInner: 6.0
+            widthOuter: 6.0
+            mult: 1
+assemblies:
+    pins a:
+        specifier: IC
+        blocks: [*block_pins]
+        height: [10.0]
+        axial mesh points: [1]
+        xs types: [A]
+grids:
+    pingrid:
+        geom: cartesian
+        symmetry: full
+        lattice pitch:
+            x: 1.0
+            y: 1.0
+{grid}"""
+
+# Candidate genuine defect on the unchanged tree (reported by an independent engineer): explicit `grid contents` whose
+# specifiers are written as bare integers ([0, 0]: 1) stay ints, while GridBlueprint.getLocators compares them with
+# the latticeIDs converted to str ('1'): no cell ever matches, the components get no grid locations and keep
+# multiplicity 1 -- the same grid written as a lattice map (or with quoted specifiers) places them.  Reproduction:
+# the text of pin_lattice_text("explicit", [1, 2], ...) below: pinA has mult 1.0 and a CoordinateLocation.
+# With the flag set the instance with bare-integer specifiers in explicit contents is not run.
+KNOWN_DEFECT_integer_specifiers_in_explicit_contents_never_match = True
+
+
+# Candidate genuine defect found by this harness on the unchanged tree: GridBlueprint._getMaxIndex sizes the spatial
+# grid by max(all i and j of the contents), not by the largest magnitude: contents whose indices are ALL negative
+# (e.g. a 2 x 2 full-symmetry Cartesian map with only its bottom-left position occupied, index (-1, -1)) give
+# numRings = 0, an empty grid that BlockBlueprint.construct treats as "no grid": the components get no positions and
+# keep multiplicity 1, silently.  Reproduction: the text of pin_lattice_text("map", ["A", "B"], [0, 2, 2, 2], 2, 2)
+# (lattice map "- -" / "A -"): pinA has mult 1.0 and a CoordinateLocation; with "A -" / "- -" (index (-1, 0), max
+# index 0) it has mult 1 and sits at (-1, 0).  With the flag set at least one occupied position has an index >= 0.
+KNOWN_DEFECT_contents_with_only_negative_indices_get_an_empty_grid = True
+
+
+def pin_lattice_text(form, specs, kinds, nx, ny):
+    """Blueprint text of a block with an nx x ny full-symmetry Cartesian pin grid; kinds[l * nx + c] in (0, 1, 2) =
+    (specs[0], specs[1], empty) for text column c and text line l counted from the bottom.  Returns (text, cells)
+    with cells[(i, j)] = 0 | 1: a full-symmetry Cartesian map has its middle position (the one right of / above the
+    middle for even counts) at index (0, 0)."""
+    cells = {}
+    for k, kind in enumerate(kinds):
+        if kind < 2:
+            cells[(k % nx - nx // 2, k // nx - ny // 2)] = kind
+    pad = " " * 12
+    if form == "map":
+        rows = [" ".join(str(specs[kinds[l * nx + c]]) if kinds[l * nx + c] < 2 else PLACEHOLDER for c in range(nx))
+                for l in reversed(range(ny))]
+        grid = "        lattice map: |\n" + "".join(pad + r + "\n" for r in rows)
+    else:
+        quote = "'" if form == "explicit quoted" else ""
+        grid = "        grid contents:\n" + "".join("%s[%d, %d]: %s%s%s\n" % (pad, i, j, quote, specs[kind], quote)
+                                                    for (i, j), kind in sorted(cells.items()))
+    return PIN_TEMPLATE.format(a=specs[0], b=specs[1], grid=grid), cells
+
+
+_Q4 = [dict(form="map", specs=["A", "B"], nx=2, ny=2), dict(form="explicit", specs=["A", "B"], nx=2, ny=2),
+       dict(form="explicit quoted", specs=[1, 2], nx=2, ny=2)]
+_T4 = _Q4 + [dict(form="map", specs=[1, 2], nx=2, ny=2), dict(form="map", specs=["A", "B"], nx=3, ny=2),
+             dict(form="explicit", specs=["A", "B"], nx=2, ny=3)]
+if not KNOWN_DEFECT_integer_specifiers_in_explicit_contents_never_match:
+    _Q4 = _Q4 + [dict(form="explicit", specs=[1, 2], nx=2, ny=2)]
+
+
+@harness("C18", bounds="block with an nx x ny Cartesian pin grid (instances: 2 x 2, thorough up to 6 positions) given as "
+                       "a lattice map or as explicit `grid contents`; symbolic: what each position holds (specifier "
+                       "a, specifier b, nothing); components: one per specifier, one naming both, one outside the "
+                       "grid; specifiers letters or numbers", stubs=["none: Blueprints.load + _prepConstruction on "
+                                                                     "generated text"],
+         instances={"quick": _Q4, "thorough": _T4}, max_paths=5000)
+def pin_lattice_gives_each_component_its_positions_and_multiplicity(ctx, form, specs, nx, ny):
+    kinds = [ctx.int("position_%d" % k, 0, 2) for k in range(nx * ny)]
+    kinds = [int(k) for k in kinds]
+    ctx.assume(any(k < 2 for k in kinds))
+    text, cells = pin_lattice_text(form, specs, kinds, nx, ny)
+    if KNOWN_DEFECT_contents_with_only_negative_indices_get_an_empty_grid:
+        ctx.note("KNOWN_DEFECT_contents_with_only_negative_indices_get_an_empty_grid: some occupied position has an "
+                 "index >= 0")
+        ctx.assume(max(max(ij) for ij in cells) >= 0)
+    design = _blueprints.Blueprints.load(text)
+    design._prepConstruction(_settings.Settings())
+    block = design.assemblies["pins a"][0]
+    want = {"pinA": sorted(ij for ij, k in cells.items() if k == 0),
+            "pinB": sorted(ij for ij, k in cells.items() if k == 1), "clad": sorted(cells)}
+    if ctx.canary and kinds == [0] * (nx * ny - 1) + [1]:
+        want["pinB"] = []                                  # one input of the family: b only at the last position
+    for name, where in want.items():
+        c = block.getComponentByName(name)
+        try:
+            got = sorted(tuple(int(v) for v in loc.getCompleteIndices()[:2]) for loc in c.spatialLocator)
+        except (TypeError, AttributeError):                # not a multi-location: the component is not in the grid
+            got = []
+        ctx.check("%s sits at exactly the positions that hold (one of) its specifier(s)" % name, got == where)
+        if where:
+            ctx.check("%s: multiplicity = number of its positions" % name, c.getDimension("mult") == len(where))
+    ctx.check("the component that names no specifier keeps the multiplicity of its input",
+              block.getComponentByName("loose").getDimension("mult") == 3)
